@@ -65,7 +65,10 @@ def variants(case, rng):
     c = rng.choice([Fr(2) ** rng.randint(-40, 40), Fr(3), Fr(10) ** 30, Fr(1, 10 ** 30), Fr(-7, 3)])
     out.append(("scaled-coeffs", S.pol_monomial([(a[0] * c, a[1] * c) for a in p], kind="Rational"), ident))
     # variable rescaled: q(x) = p(alpha x)
-    alpha = rng.choice([Fr(2), Fr(1, 4), Fr(3), Fr(-5, 7), Fr(1024), Fr(1, 1000)])
+    # 2^±100 with degree >= 7 pushes the coefficient range beyond the double range: the classic
+    # driver then starts directly in the DPE phase (a path the moderate scalings never take)
+    alpha = rng.choice([Fr(2), Fr(1, 4), Fr(3), Fr(-5, 7), Fr(1024), Fr(1, 1000), Fr(2) ** 100, Fr(1, 2 ** 100)])
+    if case["name"].startswith("gaussint"): alpha = Fr(2) ** 250   # coefficient range 2^(250*deg) > 1e616: direct DPE start
     out.append(("rescaled-variable", S.pol_monomial([(a[0] * alpha ** k, a[1] * alpha ** k) for k, a in enumerate(p)], kind="Rational"),
                 lambda d, al=alpha: map_scale(d, al)))
     # coefficient order reversed (only when 0 is not a root)
@@ -110,6 +113,11 @@ def run(ctx):
     maxdeg = ctx.pick(14, 40)
     cases = [c for c in G.standard_cases(ctx.rng, ncases * 2, maxdeg=maxdeg)
              if c["cls"] not in ("multiple-roots", "secular", "chebyshev") and S.is_squarefree(c["coeffs"])][:ncases]
+    # Gaussian-integer polynomials (real and imaginary parts of mixed signs) of a degree high enough that
+    # p(2^100 x) can only be represented in DPE/multiprecision
+    for d in ctx.pick((9, 12), (9, 12, 24, 40)):
+        c = G.mono_case("gaussint%d" % d, "random-integer-complex", G.rand_int_poly(ctx.rng, d, 6, True), ctx.rng)
+        if S.is_squarefree(c["coeffs"]): cases.append(c)
     if not ctx.quick():
         # degrees beyond what an exact oracle can certify
         for d in (100, 200, 300):
@@ -123,6 +131,7 @@ def run(ctx):
         goalopts = ctx.rng.choice([["-G", "i"], ["-G", "a", "-o", "30"]])
         for (vn, vtext, mp) in variants(c, ctx.rng):
             alg = ctx.rng.choice(["u", "s"])
+            if c["name"].startswith("gaussint") and vn == "rescaled-variable": alg = "u"
             j = len(jobs); jobs.append({"text": vtext, "opts": ["-a", alg] + goalopts})
             plan.append((ci, vn + ":" + alg, base_u if alg == "u" else base_s, j, mp))
     ctx.log("running %d solves for %d cases" % (len(jobs), len(cases)))
